@@ -184,6 +184,13 @@ class SuperOperator(BasisManaged):
         if copy:
             import copy
             oper_ven = copy.copy(oper)
+            # the copy carries the basis label of the original: like every
+            # object that lives in the basis of a context it must be
+            # registered there, otherwise it is not transformed back when
+            # the context is left
+            ob = oper_ven.get_current_basis()
+            if ob != 0:
+                oper_ven.manager.register_with_basis(ob, oper_ven)
             oper_ven.data = numpy.tensordot(self.data, oper.data)
             return oper_ven
         else:
